@@ -128,6 +128,12 @@ def run_check(prop, tier, seed):
         by_sig = {}
         for v in unlisted:
             by_sig.setdefault(_digest(v.get("sig")), []).append(v)
+        kinds = {}
+        for v in unlisted:
+            k = json.dumps(v.get("sig"), sort_keys=True)
+            kinds[k] = kinds.get(k, 0) + 1
+        for k, c in sorted(kinds.items(), key=lambda kv: -kv[1])[:30]:
+            print(f"  unlisted signature x{c}: {k}")
         written = 0
         rdir = os.path.join(HERE, "replays", prop)
         os.makedirs(rdir, exist_ok=True)
